@@ -5,8 +5,27 @@ import os
 
 SPEED_STEPS = [14, 28, 126]
 
+_NUM = [None]       # random.Random of the file being written when the configuration asks for mixed number notations
+
+def _begin(cfg, file_index):
+    import random
+    _NUM[0] = random.Random(cfg['numstyle'] * 3 + file_index) if cfg.get('numstyle') is not None else None
+
 def hx(v, w=2):
-    return '0x%0*X' % (w, v)
+    """a byte value in the notation of the documented examples (0xNN) or - configurations with 'numstyle' - in any notation a person would
+    write and the unchanged parser reads as the same number: lower-case hex digits, plain decimal, decimal with leading zeros"""
+    r = _NUM[0]
+    if r is None or w != 2:
+        return '0x%0*X' % (w, v)
+    k = r.random()
+    return '0x%02X' % v if k < 0.35 else '0x%02x' % v if k < 0.5 else str(v) if k < 0.7 else '%03d' % v if k < 0.9 else '%04d' % v
+
+def dec(v):
+    r = _NUM[0]
+    if r is None:
+        return str(v)
+    k = r.random()
+    return str(v) if k < 0.5 else '%02d' % v if k < 0.7 else '%03d' % v if k < 0.9 else '0x%02X' % v
 
 class Ids:
     """globally unique ids; with odd=rng some ids carry characters that are harmless in YAML plain scalars but not in a printf format"""
@@ -136,10 +155,12 @@ def gen_config(rng, nboards=None, rich=True, with_initial=True, max_trains=4, wi
                     p['initial'] = rng.randrange(2)
                 tr['peripherals'].append(p)
         trains.append(tr)
-    return {'boards': boards, 'trains': trains}
+    # a third of the configurations write their numbers in mixed notations (see hx)
+    return {'boards': boards, 'trains': trains, 'numstyle': rng.randrange(1 << 30) if rng.random() < 0.3 else None}
 
 # ------------------------------------------------------------------ YAML writer (documented layout, documented key order)
 def board_yaml(cfg):
+    _begin(cfg, 0)
     out = ['# BiDiB board configuration', 'boards:']
     if not cfg['boards']:
         out[-1] = 'boards: []'
@@ -164,6 +185,7 @@ def _aspects_yaml(asp, ind):
     return out
 
 def track_yaml(cfg, only_boards=None):
+    _begin(cfg, 1)
     out = ['# Track configuration', 'boards:']
     bl = [b for b in cfg['boards'] if only_boards is None or b['id'] in only_boards]
     if not bl:
@@ -232,20 +254,21 @@ def track_yaml(cfg, only_boards=None):
     return '\n'.join(out) + '\n'
 
 def train_yaml(cfg):
+    _begin(cfg, 2)
     out = ['# Train configuration', 'trains:']
     if not cfg['trains']:
         out[-1] = 'trains: []'
     for t in cfg['trains']:
         out.append(f'  - id: {t["id"]}')
         out.append(f'    dcc-address: 0x{t["addr"][0]:02X}{t["addr"][1]:02X}')
-        out.append(f'    dcc-speed-steps: {t["steps"]}')
+        out.append(f'    dcc-speed-steps: {dec(t["steps"])}')
         if t.get('calibration') is not None:
             if isinstance(t['calibration'], tuple):          # fault injection: ('scalar', text) - a calibration that is no list at all
                 out.append(f'    calibration: {t["calibration"][1]}'.rstrip())
             else:
                 out.append('    calibration:')
                 for c in t['calibration']:
-                    out.append(f'      - {c}')
+                    out.append(f'      - {dec(c)}')
         if t.get('peripherals') is not None:
             if not t['peripherals']:
                 out.append('    peripherals: []')
@@ -253,7 +276,7 @@ def train_yaml(cfg):
                 out.append('    peripherals:')
                 for p in t['peripherals']:
                     out.append(f'      - id: {p["id"]}')
-                    out.append(f'        bit: {p["bit"]}')
+                    out.append(f'        bit: {dec(p["bit"])}')
                     if p.get('initial') is not None:
                         out.append(f'        initial: {p["initial"]}')
     return '\n'.join(out) + '\n'
